@@ -298,8 +298,8 @@ func c13Stress(col *concCollector, seed int64, dur time.Duration, only string) {
 		}(i, c)
 	}
 	for _, st := range []string{"memory", "disk"} {
-		if only != "" {
-			break
+		if only != "" && !strings.Contains(","+only+",", ",cvr-"+st+",") {
+			continue
 		}
 		wg.Add(1)
 		go func(st string) {
@@ -398,6 +398,9 @@ func c13RunConfig(col *concCollector, c [4]string, seed int64, dur time.Duration
 	// every known location is re-fetched by every refresh run, and all runs of the process share one mutex:
 	// keep the number of first-use locations proportional to the run time
 	e.maxFirst = 12 + int64(dur/(400*time.Millisecond))
+	if e.storage == "disk" {
+		e.maxFirst = 6 + int64(dur/(1000*time.Millisecond))
+	}
 	e.ca = NewCA(CAOpts{CN: "C13 CA " + e.name, EC: true})
 	e.ca2 = NewCA(CAOpts{CN: "C13 CA " + e.name, EC: true}) // same name, other key: a re-keyed CRL issuer
 	e.origin = NewConcOrigin()
@@ -667,14 +670,20 @@ func runC13(r *Run) {
 	if ferr != nil {
 		r.Note("lock facts not readable: " + ferr.Error())
 	}
-	// (1a) stress in a child built like this binary: a crash of the child is a violation
+	// (1a) stress in children built like this binary: a crash of a child is a violation
 	noDeadlock, noPanic := true, true
+	// the refresh mutex is process-wide and a LevelDB refresh is slow: memory and disk configurations run in
+	// separate processes so that the memory ones are not queued behind the disk ones all the time
+	groups := [][2]string{{"mem", "mem-act,mem-bg,cvr-memory"}, {"disk", "disk-act,disk-bg,cvr-disk"}}
+	var vmu sync.Mutex
 	runOne := func(label, bin string, env []string, ms int) *concChildResult {
 		out := scratchRoot + "/c13-" + label + ".json"
 		env = append(env, "VERIF_C13_CHILD=1", fmt.Sprintf("VERIF_C13_SEED=%d", r.Seed), fmt.Sprintf("VERIF_C13_MS=%d", ms), "VERIF_C13_OUT="+out)
 		res, err, tail := concRunChild(bin, env, out, time.Duration(ms)*time.Millisecond*3+10*c13CallTimeout+120*time.Second)
+		vmu.Lock()
+		defer vmu.Unlock()
 		if err != nil || res == nil {
-			r.Violate("C13 process-crash "+label, fmt.Sprintf("stress child (%s) ended abnormally: %v; output tail: %s", label, err, c13LastLines(tail, 25)), map[string]string{"child": label})
+			r.Violate("C13 process-crash "+strings.SplitN(label, "-", 2)[0], fmt.Sprintf("stress child (%s) ended abnormally: %v; output tail: %s", label, err, c13LastLines(tail, 25)), map[string]string{"child": label})
 			noPanic = false
 		}
 		if res != nil {
@@ -691,17 +700,32 @@ func runC13(r *Run) {
 		return res
 	}
 	self, _ := os.Executable()
-	runOne("plain", self, nil, ms)
+	var cw sync.WaitGroup
+	for _, g := range groups {
+		cw.Add(1)
+		go func(g [2]string) {
+			defer cw.Done()
+			runOne("plain-"+g[0], self, []string{"VERIF_C13_CONFIGS=" + g[1]}, ms)
+		}(g)
+	}
 
-	// (1b) the same stress under the race detector
+	// (1b) the same stress under the race detector (built while the plain children run)
 	raceRan := false
 	racyFields := map[string]bool{}
 	bin, why := concBuildRaceHarness()
+	cw.Wait()
 	if bin == "" {
 		r.Note("race detector run impossible here: " + why + "; C13 rests on the lockset theorem alone for data races")
 	} else {
 		logPrefix := scratchRoot + "/race"
-		runOne("race", bin, []string{"GORACE=halt_on_error=0 log_path=" + logPrefix}, raceMs)
+		for _, g := range groups {
+			cw.Add(1)
+			go func(g [2]string) {
+				defer cw.Done()
+				runOne("race-"+g[0], bin, []string{"VERIF_C13_CONFIGS=" + g[1], "GORACE=halt_on_error=0 log_path=" + logPrefix}, raceMs)
+			}(g)
+		}
+		cw.Wait()
 		raceRan = true
 		reports, total := concParseRaceLogs(logPrefix, "/repo")
 		r.Count(fmt.Sprintf("race-reports-total:%d", total))
